@@ -54,7 +54,7 @@ TEXTS = {
         "technique": "Lean 4 theorems about an executable model of the element tree / path index / reverse reference map and its editing "
                      "operations; differential run of the model against the library on operation histories with full state dumps; direct "
                      "property oracle on the library",
-        "level_text": 'Proved, invariant by induction over operations: in EVERY state reachable from the empty world by ANY history of the core operations (new model, create_file, create / create_named with position, remove, set / remove character data, set / set-string / remove attribute, comment, insert / remove text item, add_to_file, remove_from_file, remove_file, set_version) the parent fields agree with the tree structure in every model; the driver answers these requests with the very step function the theorem is about. Navigation from the root sees exactly the structural ancestors. Rename, move, copy, sort, references and loading are compared with the library after every request (dumps include every parent field); iterators and stale handles are decided by the oracle on the library: partial.',
+        "level_text": 'Proved, invariant by induction over operations: in EVERY state reachable from the empty world by ANY history of the core operations (new model, create_file, create / create_named with position, remove, set / remove character data, set / set-string / remove attribute, comment, insert / remove text item, add_to_file, remove_from_file, remove_file, set_version) the parent fields agree with the tree structure in every model; the driver answers these requests with the very step function the theorem is about. Navigation from the root sees exactly the structural ancestors. Rename, move, copy, sort, references and loading are compared with the library after every request (dumps include every parent field); iterators and stale handles are decided by the oracle on the library: partial. ADDED: the same invariant over the larger alphabet (core operations + set_item_name + set_reference_target + sort; C03_every_reachable_state_is_a_tree_larger_alphabet); the explicit-stack machines of ElementsDfsIterator / the file-scoped iterator / sub_elements (Model/Iter.lean, answered by the driver for dfs / dfsf / subs requests and compared with the library) enumerate exactly the recursive preorder with depth limit, resp. the view of the file, with loop fuel never exhausted and the position stack never indexed out of range (C03_dfs_iterator_is_preorder, C03_file_iterator_lists_the_view, C03_sub_elements_iterator).',
         "level_note": "Trusted: Lean kernel; axioms propext, Classical.choice, Quot.sound; the hand model is tied to the Rust code by the "
                       "correspondence run only (244 of 300 quick histories are compared to the end, the others up to the first file-set "
                       "operation / move between models). " + 'Partial: World.wf preservation is a theorem for 3 operations only.',
@@ -64,7 +64,7 @@ TEXTS = {
         "technique": "Lean 4 theorems about an executable model of the element tree / path index / reverse reference map and its editing "
                      "operations; differential run of the model against the library on operation histories with full state dumps; direct "
                      "property oracle on the library",
-        "level_text": 'Proved, as an invariant by induction over operations with no bound on the history (C04_index_exact_reachable): in every state reachable by any history of the 17 core operations of the step function the driver runs (new model, create_file, create / create_named (with position), remove, set_character_data incl. renaming through the SHORT-NAME text, remove_character_data, the attribute calls, comment, text items, add_to_file, remove_from_file, remove_file, set_version), in every model, a lookup answers element i for path q exactly when navigation finds i, i has an item name and Element::path computes q; paths are pairwise different; ids are unique. Two explicit guards (no element CALLED SHORT-NAME created through create_sub_element; file versions within vOk) exclude exactly the two points where the statement is false of model and library; each has a Lean negation witness and a replayed known finding. The facts needed from the specification are checked on the regenerated tables by kernel evaluation (all versions except 4.0.1). Also proved: fix_identifiables as a whole is the key rewriting (/pkg1 vs /pkg10), remove_internal removes exactly the entries of the subtree, finite-map laws.',
+        "level_text": 'Proved, as an invariant by induction over operations with no bound on the history (C04_index_exact_reachable): in every state reachable by any history of the 17 core operations of the step function the driver runs (new model, create_file, create / create_named (with position), remove, set_character_data incl. renaming through the SHORT-NAME text, remove_character_data, the attribute calls, comment, text items, add_to_file, remove_from_file, remove_file, set_version), in every model, a lookup answers element i for path q exactly when navigation finds i, i has an item name and Element::path computes q; paths are pairwise different; ids are unique. Two explicit guards (no element CALLED SHORT-NAME created through create_sub_element; file versions within vOk) exclude exactly the two points where the statement is false of model and library; each has a Lean negation witness and a replayed known finding. The facts needed from the specification are checked on the regenerated tables by kernel evaluation (all versions except 4.0.1). Also proved: fix_identifiables as a whole is the key rewriting (/pkg1 vs /pkg10), remove_internal removes exactly the entries of the subtree, finite-map laws. ADDED: the index-exactness invariant over ALL histories of the larger alphabet (C04_index_exact_reachable_larger_alphabet: + set_item_name, set_reference_target, sort).',
         "level_note": "Trusted: Lean kernel; axioms propext, Classical.choice, Quot.sound; the hand model (the step function applyOp) is tied to the Rust code by the "
                       "correspondence run only (the driver answers the requests with applyOp; every dump holds the whole index). "
                       + 'Partial: set_item_name, move, copy, sort, set_reference_target and loading are outside the proved alphabet (compared with the library after every request + direct oracle). Hypothesis IdxHyp.noSlash (an accepted SHORT-NAME value contains no "/") is a statement about validate_regex_8, which C19 ties to its regex. Known findings c04:* (four) are replayed on every run.',
@@ -74,7 +74,7 @@ TEXTS = {
         "technique": "Lean 4 theorems about an executable model of the element tree / path index / reverse reference map and its editing "
                      "operations; differential run of the model against the library on operation histories with full state dumps; direct "
                      "property oracle on the library",
-        "level_text": 'Proved, as an invariant by induction over operations with no bound on the history (C05_referrers_exact_reachable): in every state reachable by any guarded history (the guards of C04) of the 17 core operations of the step function the driver runs — incl. set_character_data / remove_character_data on reference elements, removal of subtrees that hold references, remove_from_file / remove_file — in every model, an element is listed as referrer of a path exactly once if it is a reference element of the tree whose text is that path and not at all otherwise; no empty list, keys pairwise different. Two auxiliary invariants forced by the proof are proved alongside (a reference element has no child elements; the root keeps the root type). The facts needed about reference types are checked on the regenerated tables by kernel evaluation (C05_real_tables, 1145 reference types). Also proved for all map contents: the map as a multiset under add / remove / fix, and the rewriting loop of set_item_name on the whole map (moved lists are merged onto existing keys, nothing dropped).',
+        "level_text": 'Proved, as an invariant by induction over operations with no bound on the history (C05_referrers_exact_reachable): in every state reachable by any guarded history (the guards of C04) of the 17 core operations of the step function the driver runs — incl. set_character_data / remove_character_data on reference elements, removal of subtrees that hold references, remove_from_file / remove_file — in every model, an element is listed as referrer of a path exactly once if it is a reference element of the tree whose text is that path and not at all otherwise; no empty list, keys pairwise different. Two auxiliary invariants forced by the proof are proved alongside (a reference element has no child elements; the root keeps the root type). The facts needed about reference types are checked on the regenerated tables by kernel evaluation (C05_real_tables, 1145 reference types). Also proved for all map contents: the map as a multiset under add / remove / fix, and the rewriting loop of set_item_name on the whole map (moved lists are merged onto existing keys, nothing dropped). ADDED: referrer-list exactness over all histories of the larger alphabet; the SECOND sentence of the property as theorems over all such histories: check_references lists exactly the reference elements whose get_reference_target fails, each once (C05_report_is_exact, C05_absent_from_report_iff_resolves, C05_report_in_words), get_reference_target is sound (C05_resolve_is_sound), ids of different models are disjoint; after a successful set_reference_target the reference resolves to the target (C05_set_reference_target_resolves).',
         "level_note": "Trusted: Lean kernel; axioms propext, Classical.choice, Quot.sound; the hand model (the step function applyOp) is tied to the Rust code by the "
                       "correspondence run only (the driver answers the requests with applyOp; every dump holds every key of the reverse map via hook H1). "
                       + 'Partial: set_item_name, move, copy, set_reference_target and loading are outside the proved alphabet; the invalid-reference report / resolve equivalence is decided by correspondence + oracle, not by a theorem.',
@@ -84,17 +84,17 @@ TEXTS = {
         "technique": "Lean 4 theorems about an executable model of the element tree / path index / reverse reference map and its editing "
                      "operations; differential run of the model against the library on operation histories with full state dumps; direct "
                      "property oracle on the library",
-        "level_text": "Proved: the test that decides which references a rename/move rewrites selects exactly the element's own path and real descendants (`old` or `old/...`), never a sibling sharing a textual prefix, and keeps the suffix. That rewritten references resolve to the same element object is checked on every rename/move of the run by the dump comparison and by the oracle on the real library.",
+        "level_text": "Proved: the test that decides which references a rename/move rewrites selects exactly the element's own path and real descendants (`old` or `old/...`), never a sibling sharing a textual prefix, and keeps the suffix. That rewritten references resolve to the same element object is checked on every rename/move of the run by the dump comparison and by the oracle on the real library. NOW PROVED for set_item_name over all histories of the larger alphabet (C06_rename_follows_in_every_reachable_state): every reference of the model keeps designating the same element object (index re-keyed one-to-one, reference texts re-keyed alike), all other references keep their text; false without exact referrer lists (negation witness). Moves remain correspondence + oracle.",
         "level_note": "Trusted: Lean kernel; axioms propext, Classical.choice, Quot.sound; the hand model is tied to the Rust code by the "
                       "correspondence run only (244 of 300 quick histories are compared to the end, the others up to the first file-set "
-                      "operation / move between models). " + 'Partial: end-to-end target identity over all histories is not yet a theorem.',
+                      "operation / move between models). " + 'Partial: for moves the end-to-end target identity is correspondence + oracle; for renames it is a theorem over all histories.',
     },
     "C11": {
         "design_ref": "DESIGN.md §8 C11, §4.2",
         "technique": "Lean 4 theorems about an executable model of the element tree / path index / reverse reference map and its editing "
                      "operations; differential run of the model against the library on operation histories with full state dumps; direct "
                      "property oracle on the library",
-        "level_text": 'Proved for all worlds and arguments: the whole step function (C11_every_core_operation): whichever of the 17 core operations the driver is asked to perform, a refusal returns the identical world and is printed as err; individually, an error answer of create, named create, remove, rename, set/remove character data, set attribute (both forms), insert/remove text item, deep copy, add_to_file, remove_from_file, set_version and a rejected first load returns the identical world. set_reference_target and move_element_here mutate before their last fallible step in the code and in the model (no theorem; searched by the oracle). Loads: merge scenario on the real library.',
+        "level_text": 'Proved for all worlds and arguments: the whole step function (C11_every_core_operation): whichever of the 17 core operations the driver is asked to perform, a refusal returns the identical world and is printed as err; individually, an error answer of create, named create, remove, rename, set/remove character data, set attribute (both forms), insert/remove text item, deep copy, add_to_file, remove_from_file, set_version and a rejected first load returns the identical world. set_reference_target and move_element_here mutate before their last fallible step in the code and in the model (no theorem; searched by the oracle). Loads: merge scenario on the real library. ADDED: the error frame for the larger step function incl. set_reference_target (holds since fix 9fe96d3, a defect found by this proof obligation).',
         "level_note": "Trusted: Lean kernel; axioms propext, Classical.choice, Quot.sound; the hand model is tied to the Rust code by the "
                       "correspondence run only (244 of 300 quick histories are compared to the end, the others up to the first file-set "
                       "operation / move between models). " + 'Partial: the frame theorems cover the 17 operations of the step function plus rename and deep copy; move, sort, merging loads and the two late-failure sites (set_reference_target, move_element_here) are documented, not proved.',
@@ -102,7 +102,7 @@ TEXTS = {
     "C01": {
         "design_ref": 'DESIGN.md §8 C01',
         "technique": 'Lean 4 theorems about the value layer and the tokenizer; executable models of the whole parser and of the serializer, run against the library on every document of the run (load: tree, index, references, warnings; serialize: the text byte for byte); oracle on the real loader/serializer (independent XML reader, fixpoint)',
-        "level_text": "Proved for all inputs: every string / u64 / enumeration item survives write+read; the escaped form of any string contains no '<' so the tokenizer reads it back as one character run; all-blank runs produce no event; a comment event carries exactly the bytes between the delimiters; both modes agree on values. The element-level statement (model equality after load-serialize-load in all versions and modes) is checked on the real library with an independent XML reader as oracle: partial.",
+        "level_text": "Proved for all inputs: every string / u64 / enumeration item survives write+read; the escaped form of any string contains no '<' so the tokenizer reads it back as one character run; all-blank runs produce no event; a comment event carries exactly the bytes between the delimiters; both modes agree on values. The element-level statement (model equality after load-serialize-load in all versions and modes) is checked on the real library with an independent XML reader as oracle: partial. ADDED (token level, all sizes and depths): for every lexically well-formed tree the tokenizer model reads the xml declaration + the text the serializer model writes for a file back as exactly the expected event sequence (header, comments, start tags with attribute text, character runs, end tags incl. the deferred end of <X/>, eof), no lexer error (C01_tokenizer_inverts_serializer); over the regenerated name tables the hypotheses reduce to 'names are discriminants, comments contain no -->', and every text set_comment can store satisfies it (since fix e219cf2, a defect this theorem's hypothesis exposed).",
         "level_note": 'Trusted: Lean kernel; axioms propext, Classical.choice, Quot.sound. The identity parse(serialize(t)) = t at element level is decided by the correspondence run and the oracle, not by a theorem; f64::to_string is outside the serializer model; known findings c01:* are replayed on every run.',
     },
     "C08": {
@@ -120,7 +120,7 @@ TEXTS = {
     "C10": {
         "design_ref": 'DESIGN.md §8 C10',
         "technique": 'Lean 4 theorems about an executable model of the element tree / file sets / copy / sort and its operations; differential run of the model against the library on operation histories with full state dumps; direct property oracle on the library',
-        "level_text": 'Proved, invariant by induction over operations: in EVERY state reachable by ANY history of the core operations (create_file, add_to_file with the upward walk of add_to_file_restricted, remove_from_file, remove_file, element creation and removal, value / attribute / comment / text edits, set_version) every local file set lies within the effective set of the parent; inheritance of the effective set; every element of a model whose root is in a file is in some file. The models of these operations answer the requests of the run and are compared with the library on full dumps. Self-contained file texts and the exactness of remove_file are decided by the oracle (files histories incl. load, merge scenario): partial.',
+        "level_text": 'Proved, invariant by induction over operations: in EVERY state reachable by ANY history of the core operations (create_file, add_to_file with the upward walk of add_to_file_restricted, remove_from_file, remove_file, element creation and removal, value / attribute / comment / text edits, set_version) every local file set lies within the effective set of the parent; inheritance of the effective set; every element of a model whose root is in a file is in some file. The models of these operations answer the requests of the run and are compared with the library on full dumps. Self-contained file texts and the exactness of remove_file are decided by the oracle (files histories incl. load, merge scenario): partial. ADDED: the text the serializer model writes for a file is the text of exactly the view of the file defined by effective file sets (C10_file_text_is_text_of_view, literal equation under ShapeOk with a negation witness: the hollow element); view membership = file_membership(); every element of every reachable model is in the view of some file; the invariant over the larger alphabet.',
         "level_note": 'Trusted: Lean kernel; axioms propext, Classical.choice, Quot.sound. Not preserved by the library (known findings): move keeps the file sets of descendants, add_to_file accepts a removed file, SHORT-NAME with a set of its own.',
     },
     "C12": {
@@ -144,13 +144,13 @@ TEXTS = {
     "C13": {
         "design_ref": 'DESIGN.md §8 C13',
         "technique": 'Lean 4 theorems about an executable model of the element tree / file sets / copy / sort and its operations; differential run of the model against the library on operation histories with full state dumps; direct property oracle on the library',
-        "level_text": 'Proved for all inputs: the copy of a node gets a fresh identity and the destination as parent, keeps name, type and comment and has no local file set; non-enumeration values are never dropped by the version filter; a refused copy changes nothing. Whole-subtree equality, registration and independence are checked by the copy histories (model comparison for same-model copies; oracle on the real library incl. duplicate()): partial.',
+        "level_text": 'Proved for all inputs: the copy of a node gets a fresh identity and the destination as parent, keeps name, type and comment and has no local file set; non-enumeration values are never dropped by the version filter; a refused copy changes nothing. Whole-subtree equality, registration and independence are checked by the copy histories (model comparison for same-model copies; oracle on the real library incl. duplicate()): partial. ADDED (whole subtree, all sizes): ids of a copy are fresh and in document order, parent fields consistent, no file sets; a same-version copy of content permitted in the version equals the source up to identities; a cross-version copy equals the specification-level filter (omits exactly what is not permitted) and fails exactly when the filter fails; the fuel of the model never truncates; the source subtree is still in its tree; under CopyPathsOk (true for same-version copies of named elements) every copied identifiable / reference is findable and the new index is exactly the old one followed by the entries of the copy; negation witness for the collision finding.',
         "level_note": "Trusted: Lean kernel; axioms propext, Classical.choice, Quot.sound. " + 'Copies between models and duplicate() are oracle-only.',
     },
     "C14": {
         "design_ref": 'DESIGN.md §8 C14',
         "technique": 'Lean 4 theorems about an executable model of the element tree / file sets / copy / sort and its operations; differential run of the model against the library on operation histories with full state dumps; direct property oracle on the library',
-        "level_text": 'Proved for an arbitrary comparison: sorting is a permutation (nothing lost or duplicated); with a total preorder it is idempotent and leaves sorted lists alone; if different siblings never tie the result is independent of the previous order; the index-path key is a total order. `sort` requests are answered by the Lean model of ElementRaw::sort / Ord for Element and compared with the library.',
+        "level_text": 'Proved for an arbitrary comparison: sorting is a permutation (nothing lost or duplicated); with a total preorder it is idempotent and leaves sorted lists alone; if different siblings never tie the result is independent of the previous order; the index-path key is a total order. `sort` requests are answered by the Lean model of ElementRaw::sort / Ord for Element and compared with the library. ADDED (on trees; sortNode/opSort are what the driver runs): every header and (without stray text) every value is kept, only permitted reorderings, never fails, tree stays well-formed; in worlds with exact index / referrer lists whose children are known to their parents\' types (an invariant of all histories) lookups answer as before and stay exact - a SHORT-NAME stays first (negation witness without the hypothesis); sorting a subtree twice = once for a comparison that is a total preorder on the elements that occur; the float comparison of the repaired library (total_cmp, fix e83012f) is a linear order, the old one was not transitive (2 <= NaN <= 1), which is how that defect was found.',
         "level_note": "Trusted: Lean kernel; axioms propext, Classical.choice, Quot.sound. " + 'Assumes Element ordering is a total preorder (it was cyclic before the repair of finding #6).',
     },
     "C15": {
